@@ -303,6 +303,9 @@ func TestC14_FilterHistory(t *testing.T) {
 		case 2:
 			sc.File = true
 		}
+		// reserved-key events also arrive while an earlier document event of the vBucket is still unacknowledged (batching
+		// consumers): they advance the position all the same (what that does to C01 is the known finding F1, not C14's)
+		sc.KeepF1 = rapid.Bool().Draw(rt, "keepf1")
 		journal("C14", "c14hist", sc)
 		v, labels, _ := runHistory(&sc, known != nil, "C14")
 		if sc.MetaBucket != "" {
